@@ -57,9 +57,12 @@ Record tstore : Type := mkTStore
 
 Definition ts_new (pruning : bool) : tstore := mkTStore [] [] pruning.
 
-(* enough fuel: every step removes a stored node (adding at most 16 keys to the queue) or drops a
-   queued key *)
-Definition prune_fuel (s : store) : nat := 2 + 17 * length s.
+(* enough fuel: every step either removes a stored node (which pays for the keys of its children it
+   puts on the queue) or drops a queued key *)
+Definition node_weight (n : snode) : nat :=
+  S (match n with SInternal cs => length cs | _ => O end).
+Definition store_weight (s : store) : nat := fold_right (fun e acc => (node_weight (snd e) + acc)%nat) O s.
+Definition prune_fuel (s : store) : nat := S (store_weight s).
 
 Definition apply_op (t : tstore) (op : store_op) : res tstore :=
   match op with
